@@ -18,6 +18,7 @@ import common as C
 import gomod
 import gogen
 import k4
+import trcorr
 
 LEVEL = "proof"
 FINDINGS = os.path.join(C.VERIF, "findings", "C01")
@@ -61,7 +62,7 @@ def shrink(files, calls, fn, scratch):
 
 def check(ctx, build=None):
     if build is None:
-        build = C.ensure_built("C01", ["translator"], need_harness=False, extra_go=gomod.EXTRA_GO)
+        build = C.ensure_built("C01", ["translator", "guards"], need_harness=False, extra_go=gomod.EXTRA_GO)
     if not build.driver_ok:
         raise C.Infra("the Lean driver does not build; the interpreter is needed for C01")
     ntests, nfailing, problems = k4.calibrate()
@@ -131,6 +132,14 @@ def check(ctx, build=None):
                     d["seed"] = seed
                     ctx.violation("counterexample", "K4: native Go and the emitted GooseLang disagree",
                                   d, expected={"go": m2["go"]}, observed={"gooselang": m2["gl"]})
+        # ---- the control-flow model against the real translator, on random skeletons
+        for ts in range(ctx.seed * 40, ctx.seed * 40 + (2 if ctx.tier == "quick" else 25)):
+            st, bad = trcorr.run(ts, 40, scratch)
+            stats["skeletons"] += st["functions"]
+            stats["skeletons_accepted"] += st.get("accepted", 0)
+            stats["skeletons_rejected"] += st.get("rejected", 0)
+            if bad and not any(b["kind"] == "correspondence" for b in build.broken):
+                build.broken.append({"kind": "correspondence", "name": "tr: Model.Tr.trStmts vs the structure goose emits", "detail": json.dumps(bad)[:2500]})
         # ---- known findings: replay the committed witnesses
         known = {e["key"]: e for e in C.load_known("C01") if e.get("status") == "known"}
         for path in sorted(glob.glob(os.path.join(FINDINGS, "*.go")) + glob.glob(os.path.join(FINDINGS + "-fixed", "*.go"))):
@@ -179,7 +188,7 @@ def check(ctx, build=None):
 
 def replay(ctx, path):
     obj = json.load(open(path))
-    C.ensure_built("C01", ["translator"], need_harness=False, extra_go=gomod.EXTRA_GO)
+    C.ensure_built("C01", ["translator", "guards"], need_harness=False, extra_go=gomod.EXTRA_GO)
     inp = obj["input"]
     if inp.get("proto") != "k4" or "seed" not in inp:
         return check(ctx)
